@@ -113,9 +113,14 @@ class MementoException(RuntimeError):
         module = exc_class.__module__
         qual_name = exc_class.__qualname__
         full_qual_name = "{}::{}:{}".format(language, module, qual_name)
+        try:
+            message = str(e)
+        except Exception:
+            # The exception's own __str__ failed: it must still be possible to record it
+            message = "<unprintable {} object>".format(qual_name)
         return MementoException(
             full_qual_name,
-            str(e),
+            message,
             "".join(traceback.format_exception(type(e), e, e.__traceback__)),
         )
 
